@@ -125,7 +125,7 @@ class Runner:
         self.ossified = None
         self.extra = b""              # QUEUE_EXTRA of the build under test (extra.h)
 
-    def execute(self, uid, crash=None, fault=None, hold_trigger=False, alarm=None, blocked=False):
+    def execute(self, uid, crash=None, fault=None, hold_trigger=False, alarm=None, blocked=False, umask=None):
         h = self.h
         h.clean_queue()
         h.clear_trace()
@@ -153,6 +153,10 @@ class Runner:
                 # blocked: the caller had SIGALRM (and SIGPIPE, SIGTERM) blocked when it started the program - a signal mask is inherited
                 # across exec; the program is documented to clear it first thing, or its death timer could never fire
                 pre = (lambda: signal.pthread_sigmask(signal.SIG_BLOCK, [signal.SIGALRM, signal.SIGPIPE, signal.SIGTERM])) if blocked else None
+                if umask is not None:
+                    # the invoking user's file-creation mask is inherited like the signal mask: the program sets its own
+                    pre0 = pre
+                    pre = lambda: (os.umask(umask), pre0 and pre0())
                 p = subprocess.Popen([self.tree.path("qmail-queue")], stdin=f0, stdout=f1, stderr=subprocess.DEVNULL,
                                      env=env, cwd="/", close_fds=True, preexec_fn=pre)
                 try:
@@ -250,6 +254,13 @@ def judge(r, sc, msg, env, uid, uidclass, rc, pid, t0, t1, events, mode, expect_
         if rc == 0 and not visible:
             return "exit 0 but todo/%d missing: message not visible to the daemon" % n, reached, {}
         if visible or rc == 0:
+            # "visible to the delivery daemon": the daemon runs under another account than the one that owns the queue files, and the files'
+            # group is the invoking user's - whatever file-creation mask the invoker had, message and envelope must be readable by others
+            for dname in ("mess", "todo"):
+                if dname in s:
+                    md = os.stat(h.qpath(dname, n)).st_mode & 0o777
+                    if not md & 0o004:
+                        return "%s/%d has mode %04o: not readable by the delivery daemon's account (invoker's umask %s)" % (dname, n, md, ("%03o" % sc["umask"]) if sc.get("umask") is not None else "inherited"), reached, {}
             for name, im in images(h, r.shadow, n, s):
                 m = im["mess"]
                 e = im["env"]
@@ -326,7 +337,7 @@ def run_input(r, sc, stats, full=True, pick=None):
     key_in = vlib.digest(sc)[:12]
 
     def one(mode, crash=None, fault=None, expect=None, alarm=None, blocked=False):
-        rc, pid, t0, t1, ev = r.execute(uid, crash=crash, fault=fault, hold_trigger=hold, alarm=alarm, blocked=blocked)
+        rc, pid, t0, t1, ev = r.execute(uid, crash=crash, fault=fault, hold_trigger=hold, alarm=alarm, blocked=blocked, umask=sc.get("umask"))
         if not ev:
             # not a single traced call: the program ran without the interposer (ld.so skips an unreadable preload silently) - nothing
             # can be judged, and certainly no crash or fault was injected
@@ -449,6 +460,7 @@ scenario = st.fixed_dictionaries({
     "mut": mutation,
     "uid": st.sampled_from(["a", "d", "s", "x"]),
     "hold": st.booleans(),
+    "umask": st.sampled_from([None, None, None, 0o077, 0o027, 0o000, 0o777, 0o066]),
     "tape": st.lists(st.integers(0, 10 ** 6), min_size=12, max_size=12),
 })
 
@@ -478,6 +490,10 @@ def boundary_inputs():
         out.append({"mlen": 300, "pat": {"hex": "00ff0a"}, "sender": {"len": 4, "pat": {"b": "s@h"}},
                     "rcpts": [{"len": 4, "pat": {"b": "r@h"}}, {"len": 0, "pat": {"b": "r"}}], "mut": mut, "uid": "x", "hold": True, "tape": []})
     out.append({"mlen": 20, "pat": {"b": "z"}, "sender": {"len": 0, "pat": {"b": "s"}}, "rcpts": [], "mut": {"kind": "none"}, "uid": "d", "hold": True, "tape": []})
+    # restrictive file-creation masks inherited from the invoker (added after seeded change C01-M)
+    for um in (0o077, 0o027, 0o777):
+        out.append({"mlen": 200, "pat": {"b": "ab\n"}, "sender": {"len": 5, "pat": {"b": "s@h"}}, "rcpts": [{"len": 6, "pat": {"b": "r@h"}}],
+                    "mut": {"kind": "none"}, "uid": "x", "hold": False, "tape": [], "umask": um})
     return out
 
 
